@@ -943,4 +943,96 @@ example : V3.norm2 ⟨3/5, 4/5, 0⟩ = 1 ∧ V3.norm2 ⟨-4/5, 3/5, 0⟩ = 1 ∧
       halfPlanePt ⟨1, 1, 1⟩ ⟨3/5, 4/5, 0⟩ ⟨-4/5, 3/5, 0⟩ 0 2] 0 1 ⟨3/5, 4/5, 0⟩ 1 ⟨1, 1, 1⟩)) = [1, 1, 2, 2, 1, 1, 2, 2] := by
   decide +kernel
 
+/-! ### Round 6g: `Connector` between axis-aligned boxes displaced along a coordinate direction -/
+
+/-- the outward unit normals of the six sides of an axis-aligned box -/
+def axisNormals : List V3 := [⟨1, 0, 0⟩, ⟨-1, 0, 0⟩, ⟨0, 1, 0⟩, ⟨0, -1, 0⟩, ⟨0, 0, 1⟩, ⟨0, 0, -1⟩]
+
+theorem axis_normal_towards (n v : V3) (w : Rat) (hn : n ∈ axisNormals) (hx : 0 < v.x) (hw : 0 < w) (hww : w * w = V3.norm2 v)
+    (h : V3.dot v n = w) : n = ⟨1, 0, 0⟩ ∧ v.y = 0 ∧ v.z = 0 := by
+  simp only [V3.norm2, V3.dot] at hww
+  simp only [axisNormals, List.mem_cons, List.not_mem_nil, or_false] at hn
+  rcases hn with rfl | rfl | rfl | rfl | rfl | rfl <;> simp only [V3.dot] at h
+  · have hy : v.y * v.y = 0 := by nlinarith [mul_self_nonneg v.y, mul_self_nonneg v.z]
+    have hz : v.z * v.z = 0 := by nlinarith [mul_self_nonneg v.y, mul_self_nonneg v.z]
+    exact ⟨rfl, mul_self_eq_zero.mp hy, mul_self_eq_zero.mp hz⟩
+  · exfalso; nlinarith
+  · exfalso; nlinarith [mul_self_nonneg v.z, mul_pos hx hx]
+  · exfalso; nlinarith [mul_self_nonneg v.z, mul_pos hx hx]
+  · exfalso; nlinarith [mul_self_nonneg v.y, mul_pos hx hx]
+  · exfalso; nlinarith [mul_self_nonneg v.y, mul_pos hx hx]
+
+theorem axis_normal_back (n v : V3) (w : Rat) (hn : n ∈ axisNormals) (hx : 0 < v.x) (hw : 0 < w) (hww : w * w = V3.norm2 v)
+    (h : V3.dot v n = -w) : n = ⟨-1, 0, 0⟩ := by
+  simp only [V3.norm2, V3.dot] at hww
+  simp only [axisNormals, List.mem_cons, List.not_mem_nil, or_false] at hn
+  rcases hn with rfl | rfl | rfl | rfl | rfl | rfl <;> simp only [V3.dot] at h
+  · exfalso; nlinarith
+  · rfl
+  · exfalso; nlinarith [mul_self_nonneg v.z, mul_pos hx hx]
+  · exfalso; nlinarith [mul_self_nonneg v.z, mul_pos hx hx]
+  · exfalso; nlinarith [mul_self_nonneg v.y, mul_pos hx hx]
+  · exfalso; nlinarith [mul_self_nonneg v.y, mul_pos hx hx]
+
+/-- **`Connector` between two axis-aligned boxes, the second one further along +x**: for *every* pair of sides (outward unit
+    normals `n1`, `n2` among the six axis directions) whose centres are joined by a vector `v` with `v.x > 0` — all 36 pairs, when
+    the second box lies beyond the first along x — the alignment measure reaches its maximum 2 **exactly** for the facing pair:
+    `n1 = +x` (the side of box 1 towards box 2), `n2 = −x` (the side of box 2 towards box 1), with the two centres on a line
+    parallel to x; every other pair of sides, and the facing pair when the centres are offset sideways, is strictly below 2. -/
+theorem T_C10_connector_facing (n1 n2 v : V3) (w : Rat) (h1 : n1 ∈ axisNormals) (h2 : n2 ∈ axisNormals)
+    (hx : 0 < v.x) (hw : 0 < w) (hww : w * w = V3.norm2 v) :
+    (alignment v n1 n2 w = 2 ↔ n1 = ⟨1, 0, 0⟩ ∧ n2 = ⟨-1, 0, 0⟩ ∧ v.y = 0 ∧ v.z = 0) ∧
+    (¬(n1 = ⟨1, 0, 0⟩ ∧ n2 = ⟨-1, 0, 0⟩ ∧ v.y = 0 ∧ v.z = 0) → alignment v n1 n2 w < 2) := by
+  have hu : ∀ n ∈ axisNormals, V3.norm2 n = 1 := by
+    intro n hn
+    simp only [axisNormals, List.mem_cons, List.not_mem_nil, or_false] at hn
+    rcases hn with rfl | rfl | rfl | rfl | rfl | rfl <;> simp [V3.norm2, V3.dot]
+  have hmax := T_C10_alignment_max v n1 n2 w hw hww (hu n1 h1) (hu n2 h2)
+  have hiff : alignment v n1 n2 w = 2 ↔ n1 = ⟨1, 0, 0⟩ ∧ n2 = ⟨-1, 0, 0⟩ ∧ v.y = 0 ∧ v.z = 0 := by
+    rw [hmax.2]
+    constructor
+    · rintro ⟨ha, hb⟩
+      obtain ⟨e1, hy, hz⟩ := axis_normal_towards n1 v w h1 hx hw hww ha
+      exact ⟨e1, axis_normal_back n2 v w h2 hx hw hww hb, hy, hz⟩
+    · rintro ⟨rfl, rfl, hy, hz⟩
+      simp only [V3.norm2, V3.dot] at hww
+      have hwx : w = v.x := by
+        have : (w - v.x) * (w + v.x) = 0 := by rw [hy, hz] at hww; nlinarith
+        rcases mul_eq_zero.mp this with h | h
+        · linarith
+        · exfalso; linarith
+      simp only [V3.dot]
+      constructor <;> linarith
+  refine ⟨hiff, ?_⟩
+  intro hne
+  rcases lt_or_eq_of_le hmax.1 with h | h
+  · exact h
+  · exact absurd (hiff.mp h) hne
+
+/-- the hypothesis `v.x > 0` of `T_C10_connector_facing` holds for **all 36 pairs of sides** of two boxes of the model
+    (`boxPoints`, faces by side name through `FACE_MAP`) as soon as the second box lies beyond the first along x: the centre of
+    every side of box 2 is further along +x than the centre of every side of box 1 -/
+theorem T_C10_boxes_displaced (p q p' q' : V3) (hsep : max p.x q.x < min p'.x q'.x) :
+    ∀ e1 ∈ CBV.Gen.faceMap, ∀ e2 ∈ CBV.Gen.faceMap, ∃ f1 f2,
+      (GOp.mk (boxPoints p q)).getFace e1.1 = some f1 ∧ (GOp.mk (boxPoints p' q')).getFace e2.1 = some f2 ∧
+        0 < (avg f2).x - (avg f1).x := by
+  have m1 : min p.x q.x ≤ max p.x q.x := min_le_max
+  have m2 : min p'.x q'.x ≤ max p'.x q'.x := min_le_max
+  intro e1 he1 e2 he2
+  simp only [CBV.Gen.faceMap, List.mem_cons, List.not_mem_nil, or_false] at he1 he2
+  rcases he1 with rfl | rfl | rfl | rfl | rfl | rfl <;> rcases he2 with rfl | rfl | rfl | rfl | rfl | rfl <;>
+    refine ⟨_, _, rfl, rfl, ?_⟩ <;>
+    simp only [boxPoints, List.map_cons, List.map_nil, List.cons_append, List.nil_append, List.getD_cons_zero, List.getD_cons_succ,
+      avg, vsum, List.foldr_cons, List.foldr_nil, List.length_cons, List.length_nil, V3.zero, V3.add_x, V3.smul_x] <;>
+    norm_num <;>
+    linarith [le_max_left p.x q.x, le_max_right p.x q.x, min_le_left p.x q.x, min_le_right p.x q.x,
+      le_max_left p'.x q'.x, le_max_right p'.x q'.x, min_le_left p'.x q'.x, min_le_right p'.x q'.x]
+
+example : max (⟨0, 0, 0⟩ : V3).x (⟨1, 1, 1⟩ : V3).x < min (⟨4, 0, 0⟩ : V3).x (⟨3, 1, 1⟩ : V3).x := by decide +kernel
+
+/-- non-vacuity: unit boxes three units apart along x — the facing pair has alignment 2, right side against right side 0,
+    and the facing normals with the centres offset sideways (v = (3, 4, 0), |v| = 5) only 2·(3/5)³ -/
+example : alignment ⟨3, 0, 0⟩ ⟨1, 0, 0⟩ ⟨-1, 0, 0⟩ 3 = 2 ∧ alignment ⟨3, 0, 0⟩ ⟨1, 0, 0⟩ ⟨1, 0, 0⟩ 3 = 0 ∧
+    alignment ⟨3, 4, 0⟩ ⟨1, 0, 0⟩ ⟨-1, 0, 0⟩ 5 = 54 / 125 ∧ (5 : Rat) * 5 = V3.norm2 ⟨3, 4, 0⟩ := by decide +kernel
+
 end CBV.C10
